@@ -1,4 +1,4 @@
-\* thorough: as Two.cfg with more classes of first and second blocks
+\* thorough: as Two.cfg with more classes of first and second blocks (not exported)
 SPECIFICATION Spec
 CONSTANTS
   Guard = "AsRequired"
@@ -12,7 +12,7 @@ CONSTANTS
   ByzVotes = "free"
   Loss = "all"
   Serve = "any"
+  Equiv = TRUE
 INVARIANTS TypeOK VotesOnlyFullyValid PersistOnlyApplicable NoWedge
-ACTION_CONSTRAINT Edge
 VIEW View
 CHECK_DEADLOCK FALSE
